@@ -194,6 +194,8 @@ impl<T> Scheduler<T> {
 impl Sender {
     /// Send a runnable to the executor.
     fn send(&self, runnable: Runnable<usize>) {
+        #[cfg(feature = "verif_hooks")]
+        crate::verif::yield_point(crate::verif::Site::EX_SEND_PRE, crate::verif::SiteKind::Normal);
         // Send on the channel.
         //
         // All we do with the lock is call `send`, so there's no chance of any state being corrupted on
@@ -215,11 +217,15 @@ impl Sender {
             unreachable!("Attempted to send runnable to a stopped executor");
         }
 
+        #[cfg(feature = "verif_hooks")]
+        crate::verif::yield_point(crate::verif::Site::EX_SEND_MID, crate::verif::SiteKind::Normal);
         // If the executor is already awake, don't bother waking it up again.
         if self.notified.swap(true, Ordering::SeqCst) {
             return;
         }
 
+        #[cfg(feature = "verif_hooks")]
+        crate::verif::yield_point(crate::verif::Site::EX_SEND_POSTSWAP, crate::verif::SiteKind::Normal);
         // Wake the executor.
         self.wake_up.ping();
     }
@@ -229,6 +235,8 @@ impl<T> Drop for Executor<T> {
     fn drop(&mut self) {
         let active_tasks = self.state.active_tasks.borrow_mut().take().unwrap();
 
+        #[cfg(feature = "verif_hooks")]
+        crate::verif::yield_point(crate::verif::Site::EX_DROP_WAKE_PRE, crate::verif::SiteKind::Normal);
         // Wake all of the active tasks in order to destroy their runnables.
         for (_, task) in active_tasks {
             if let Active::Future(waker) = task {
@@ -245,6 +253,8 @@ impl<T> Drop for Executor<T> {
             }
         }
 
+        #[cfg(feature = "verif_hooks")]
+        crate::verif::yield_point(crate::verif::Site::EX_DROP_DRAIN_PRE, crate::verif::SiteKind::Normal);
         // Drain the queue in order to drop all of the runnables.
         while self.state.incoming.try_recv().is_ok() {}
     }
@@ -316,10 +326,16 @@ impl<T> EventSource for Executor<T> {
                 .source
                 .process_events(readiness, token, |(), &mut ()| {
                     // Set to the unnotified state.
+                    #[cfg(feature = "verif_hooks")]
+                    crate::verif::yield_point(crate::verif::Site::EX_CLEAR_PRE, crate::verif::SiteKind::Normal);
                     state.sender.notified.store(false, Ordering::SeqCst);
+                    #[cfg(feature = "verif_hooks")]
+                    crate::verif::yield_point(crate::verif::Site::EX_CLEAR_POST, crate::verif::SiteKind::Normal);
 
                     // Process runnables, but not too many at a time; better to move onto the next event quickly!
                     for _ in 0..1024 {
+                        #[cfg(feature = "verif_hooks")]
+                        crate::verif::yield_point(crate::verif::Site::EX_RECV_PRE, crate::verif::SiteKind::Normal);
                         let runnable = match state.incoming.try_recv() {
                             Ok(runnable) => runnable,
                             Err(_) => {
@@ -360,6 +376,8 @@ impl<T> EventSource for Executor<T> {
 
         // Re-ready the ping source if we need to re-run this handler.
         if !clear_readiness {
+            #[cfg(feature = "verif_hooks")]
+            crate::verif::yield_point(crate::verif::Site::EX_REPING_PRE, crate::verif::SiteKind::Normal);
             self.ping.ping();
             Ok(PostAction::Continue)
         } else {
